@@ -248,7 +248,7 @@ def gen_session(rng):
     opts = {}
     opts["maxrects"] = r.choice([0, 1, 50, 50, 3])
     if r.random() < 0.7:
-        opts["name"] = hexs(r, r.choice([0, 1, 5, 20, 126, 127, 128, 200]))
+        opts["name"] = hexs(r, r.choice([0, 1, 5, 20, 126, 127, 128, 200, 255, 300]))
     if r.random() < 0.4:
         opts["xvp"] = r.choice([1, 2])
     if r.random() < 0.4:
@@ -692,6 +692,162 @@ def det_dropcap(rng):
     return out
 
 
+def det_handshake(rng):
+    """every protocol version x None/VncAuth x good/bad password, failure reason strings, desktop names of
+    length 0/127/128/255/300 (strncpy 127), a protocol extension with an init hook, peers that vanish
+    before / right after ClientInit"""
+    out = []
+    names = [0, 127, 128, 255, 300]
+    n = 0
+    for minor in (3, 7, 8, 889):
+        for passwd, good in ((False, True), (True, True), (True, False)):
+            g = Gen(rng)
+            opts = {"name": hexs(rng, names[n % len(names)])}
+            if passwd:
+                opts["passwd"] = 1
+            if n % 3 == 0:
+                # (init hook returning FALSE is not used: rfbDisableExtension unlinks the client's
+                # rfbExtensionData node without freeing it - a leak that belongs to C12)
+                opts["ext"] = 1
+            g.screen(37, 23, rng.choice([1, 2, 4]), **opts)
+            i = g.connect(minor, passwd=passwd, good=good)
+            if i in g.normal:
+                g.req(i, 0)
+            j = g.connect(minor, passwd=passwd, good=True, stop_at="auth" if passwd else ("sectype" if minor >= 7 else "version"))
+            if j in g.hs and not (minor == 889 and not passwd):
+                if passwd:
+                    g.op("auth %d good" % j)
+                g.op("cinitclose %d" % j if n % 2 else "close %d" % j)      # peer gone around ClientInit
+                g.hs.remove(j)
+            g.op("bell")
+            out.append((g.text(), {"det-handshake"}, "det_handshake"))
+            n += 1
+    return out
+
+
+def det_flush(rng):
+    """updates in which an emitter starts with cl->ublen close to UPDATE_BUF_SIZE, so that its
+    `ublen + header (+ payload) > UPDATE_BUF_SIZE` flush decides (sizes from T0)"""
+    k = t0_consts()
+    UB, hdr = k["UPDATE_BUF_SIZE"], k["sz_rfbFramebufferUpdateRectHeader"]
+    cr = hdr + k["sz_rfbCopyRect"]
+    out = []
+
+    def session(bpp, encs, w=200, h=150, **opts):
+        g = Gen(rng)
+        g.screen(w, h, bpp, maxrects=0, **opts)
+        i = g.connect(8)
+        g.setenc(i, encs)
+        g.draw(0, 0, w, h, mode=3)
+        g.req(i, 0)                    # first update: cursor shape and full screen are out of the way
+        return g, i
+
+    # (1) LastRect marker after a Tight rectangle that leaves the buffer within 12 bytes of its end:
+    #     compression level 0 without JPEG sends raw pixels, 4 bytes each for a 32-bit depth-32 format
+    for npix_w, npix_h in ((90, 91), (91, 90), (130, 63), (89, 92)):
+        g, i = session(4, [TIGHT, LASTRECT, COMPRESS0, RICHCURSOR])
+        g.draw(5, 3, npix_w, npix_h, mode=3)
+        g.op("fbur %d 1 0 0 200 150" % i)
+        out.append((g.text(), {"det-flush", "lastrect"}, "det_flush"))
+    # (2) first-rectangle flush of RRE / CoRRE / Zlib / ZRLE / Ultra after exactly as many CopyRect
+    #     rectangles as fit: (UB - 4) // 16 of them leave ublen = UB - 12
+    ncopy = (UB - k["sz_rfbFramebufferUpdateMsg"]) // cr           # 2047
+    rows = 23
+    cols = ncopy // rows                                            # 89 cells per row
+    for enc in (RRE, CORRE, ZLIB, ZRLE, ULTRA, HEXTILE, TIGHT):
+        for extra in (0, -1):
+            g, i = session(4, [enc, COPYRECT, RICHCURSOR])
+            if cols * rows == ncopy:
+                g.op("copychk 0 40 %d %d 1 0 30" % (2 * cols, rows + extra))
+            g.draw(2, 100, 10, 10, mode=0)
+            g.draw(30, 100, 12, 9, mode=3)
+            g.req(i, 1)
+            out.append((g.text(), {"det-flush", "copy+" + ENC_NAME[enc]}, "det_flush"))
+    # (2b) CoRRE data that ends exactly at the end of the buffer (`if (cl->ublen == UPDATE_BUF_SIZE)` in
+    #      the copy loop): 2046 CopyRects, then a rectangle with background + exactly one sub-rectangle
+    g, i = session(4, [CORRE, COPYRECT, RICHCURSOR])
+    g.op("copychk 0 40 132 31 1 0 30")
+    g.draw(2, 100, 10, 10, mode=0)
+    g.draw(4, 102, 2, 2, mode=0)
+    g.req(i, 1)
+    out.append((g.text(), {"det-flush", "corre-exact-fill"}, "det_flush"))
+    # (3) Hextile: 1978 CopyRects, four solid 4x4 tiles (17 bytes each at 32 bpp) and one raw 16x16 tile
+    #     bring ublen to UB - 11 when the next rectangle's header is written
+    g, i = session(4, [HEXTILE, COPYRECT, RICHCURSOR])
+    g.op("copychk 0 40 92 43 1 0 30")
+    for q in range(4):
+        g.draw(10 * q, 100, 4, 4, mode=0)
+    g.draw(0, 110, 16, 16, mode=3)
+    g.draw(0, 130, 5, 5, mode=0)
+    g.req(i, 1)
+    out.append((g.text(), {"det-flush", "hextile"}, "det_flush"))
+    # (4) a rich cursor whose rectangle is exactly UPDATE_BUF_SIZE bytes for a 16-bit client (fits the
+    #     empty buffer, not the buffer holding the 4-byte update header), one byte more, one less
+    for cw, ch in ((123, 125), (308, 50), (67, 229), (124, 125), (122, 125), (1, 1)):
+        g = Gen(rng)
+        g.screen(64, 48, 2, maxrects=0)
+        i = g.connect(8)
+        g.setenc(i, [RAW, RICHCURSOR, POINTERPOS])
+        g.req(i, 0)
+        g.op("cursor %d %d 0 0 %d %d" % (cw, ch, 2 if cw == 1 else 1, rng.randint(1, 10 ** 6)))
+        g.req(i, 1)
+        g.op("cursor %d %d 0 0 %d %d" % (cw, ch, 2 if cw == 1 else 0, rng.randint(1, 10 ** 6)))
+        g.setenc(i, [RAW, XCURSOR])
+        g.req(i, 1)
+        out.append((g.text(), {"det-flush", "cursor"}, "det_flush"))
+    return out
+
+
+def det_extdesktop(rng):
+    """ExtDesktopSize with 0, 1, many screens, a failing screen hook, every SetDesktopSize result code"""
+    out = []
+    for nscreens, fail, setds in ((0, -1, 1), (1, -1, 3), (5, -1, 2), (255, -1, 7), (3, 1, 1), (2, 0, 0), (1, -1, 0)):
+        g = Gen(rng)
+        g.conservative = True
+        opts = {"extscreens": nscreens, "setds": setds}
+        if fail >= 0:
+            opts["extfail"] = fail
+        g.screen(64, 48, rng.choice([1, 2, 4]), maxrects=50, **opts)
+        i = g.connect(8)
+        g.setenc(i, [rng.choice([RAW, HEXTILE, ZRLE]), EXTDESKTOPSIZE, LED])
+        g.req(i, 0)
+        g.req(i, 1)
+        if setds == 0:
+            g.resize(97, 97, via=i)
+        else:
+            g.op("setds %d 100 80" % i)
+        g.req(i, 1)
+        g.req(i, 0)
+        g.resize(37, 23)
+        g.req(i, 1)
+        g.req(i, 1)
+        out.append((g.text(), {"det-extdesktop"}, "det_extdesktop"))
+    return out
+
+
+def det_scaled_count(rng):
+    """scaled clients with the counting encodings: the rectangle count is taken in the scaled screen"""
+    out = []
+    for enc, (w, h), kf in ((CORRE, (300, 200), 2), (CORRE, (291, 147), 3), (ZLIB, (800, 600), 2), (ULTRA, (800, 600), 2),
+                            (TIGHT, (4200, 200), 2), (TIGHTPNG, (600, 500), 2), (ZLIB, (1030, 260), 2), (TIGHT, (700, 400), 3)):
+        for lr in (False, True):
+            if lr and enc not in (TIGHT, TIGHTPNG):
+                continue
+            g = Gen(rng)
+            g.screen(w, h, 1 if w * h > 400000 else rng.choice([1, 2, 4]), maxrects=0)
+            i = g.connect(8)
+            g.setenc(i, [enc] + ([LASTRECT] if lr else []))
+            g.draw(0, 0, w, h, mode=rng.choice([2, 3, 5]))
+            g.setscale(i, kf)
+            sw, sh = w // kf, h // kf
+            g.op("fbur %d 0 0 0 %d %d" % (i, sw, sh))
+            g.draw(3, 5, w - 7, h - 9, mode=rng.choice([1, 3]))
+            g.draw(0, 0, 2 * 48 * kf, 48 * kf, mode=3)
+            g.op("fbur %d 1 0 0 %d %d" % (i, sw, sh))
+            out.append((g.text(), {"det-scaled", "enc:" + ENC_NAME[enc]}, "det_scaled_count"))
+    return out
+
+
 GENS = [(gen_session, 0.34), (gen_boundary, 0.26), (gen_multirect, 0.18), (gen_scaled, 0.08),
         (gen_resize, 0.08), (gen_handshake, 0.06)]
 
@@ -839,7 +995,8 @@ def run(ctx):
     else:
         for p in sorted(glob.glob(os.path.join(common.VERIF, "corpus", "C03", "*.ops"))):
             cases.append((open(p).read(), {"corpus"}, "corpus:" + os.path.basename(p)))
-        cases += det_tight_boundary(ctx.rng) + det_dropcap(ctx.rng)
+        cases += det_tight_boundary(ctx.rng) + det_dropcap(ctx.rng) + det_handshake(ctx.rng) + \
+            det_flush(ctx.rng) + det_extdesktop(ctx.rng) + det_scaled_count(ctx.rng)
         n = 200 if ctx.tier == "quick" else 3000
         for _ in range(n):
             f = pick_gen(ctx.rng)
